@@ -590,8 +590,16 @@ class FuncFacts:
                 b = [x for x in stmt.body if not (isinstance(x, ast.Expr) and isinstance(x.value, ast.Constant))]
                 if len(b) == 1 and isinstance(b[0], ast.Return) and b[0].value is not None:
                     lam = ast.Lambda(args=copy.deepcopy(stmt.args), body=copy.deepcopy(b[0].value))
+                    # capture-avoiding: the parameters get fresh names before the free names of the body are resolved (an outer
+                    # `iterate` substituted into the body must not be captured by a parameter that is also called `iterate`)
+                    ren = {}
                     for a_ in lam.args.args + lam.args.posonlyargs:
                         a_.annotation = None
+                        ren[a_.arg] = f"__p{stmt.lineno}_{a_.arg}"
+                        a_.arg = ren[a_.arg]
+                    for n_ in ast.walk(lam.body):
+                        if isinstance(n_, ast.Name) and n_.id in ren:
+                            n_.id = ren[n_.id]
                     env[stmt.name] = resolve(ast.fix_missing_locations(ast.copy_location(lam, stmt)), env)
             return env, facts
         if isinstance(stmt, (ast.Import, ast.ImportFrom)):
